@@ -2,13 +2,17 @@ package agreesim
 
 import (
 	"bytes"
+	"context"
 	"crypto/sha256"
+	"database/sql"
 	"fmt"
+	"os"
 	"path/filepath"
 	"testing/synctest"
 
 	"github.com/algorand/go-algorand/crypto"
 	"github.com/algorand/go-algorand/protocol"
+	"github.com/algorand/go-algorand/util/db"
 )
 
 func (s *Sim) installOracles() {}
@@ -83,6 +87,10 @@ func (s *Sim) observeVote(n *Node, in *inst, v UVote, wire []byte) {
 				s.batchOwn = map[int][]UVote{}
 			}
 			s.batchOwn[n.id] = append(s.batchOwn[n.id], v)
+			if s.batchSeq == nil {
+				s.batchSeq = map[int][]int64{}
+			}
+			s.batchSeq[n.id] = append(s.batchSeq[n.id], s.curHseq)
 		}
 	} else if own && v.R.Step == stepPropose {
 		k := fmt.Sprintf("P%x|%d|%d", v.R.Sender[:6], v.R.Round, v.R.Period)
@@ -245,19 +253,13 @@ func (s *Sim) nontrivial() bool {
 }
 
 
-// shadowCheck is C02's "persist before send" oracle: at the instant attest votes have left node n,
-// a fresh service started on a copy of n's crash DB (the durable image at this instant) must resume
-// in a state that already contains that attestation: it re-originates the same votes, and nothing it
-// originates conflicts with anything the node ever sent. The shadow is discarded afterwards.
+// shadowCheck is one half of C02's crash oracle: at an instant at which attest votes have left node n,
+// a fresh service is started on a copy of n's crash DB (the durable image at this instant). Whatever
+// that restored node originates must not conflict with anything the node's keys ever sent. The shadow
+// is discarded afterwards. (An earlier version also demanded that the image's player state be "at
+// least as advanced" as the votes: wrong, see DESIGN.md 11.3 - persistCheck replaced it.)
 func (s *Sim) shadowCheck(n *Node, sent []UVote) {
-	// the latest (round, period, step) attested in this reaction
 	top := sent[0].R
-	for _, v := range sent {
-		r := v.R
-		if r.Round > top.Round || (r.Round == top.Round && (r.Period > top.Period || (r.Period == top.Period && r.Step > top.Step))) {
-			top = r
-		}
-	}
 	s.shadowSeq++
 	path := filepath.Join(s.dir, fmt.Sprintf("shadow%d.db", s.shadowSeq))
 	if err := copyDB(n.dbPath, path); err != nil {
@@ -275,8 +277,10 @@ func (s *Sim) shadowCheck(n *Node, sent []UVote) {
 	in.outbox = nil
 	in.mu.Unlock()
 	s.retire(in)
+	for _, suf := range []string{"", "-wal", "-shm"} {
+		os.Remove(path + suf)
+	}
 	s.stat("shadow_restore", 1)
-	reattested := map[string]PValue{}
 	for _, m := range out {
 		if m.tag != protocol.AgreementVoteTag {
 			continue
@@ -292,25 +296,220 @@ func (s *Sim) shadowCheck(n *Node, sent []UVote) {
 					top.Round, top.Period, top.Step, n.id, v.R.Proposal.Short(), v.R.Round, v.R.Period, v.R.Step, m))
 				return
 			}
-		}
-		reattested[k] = v.R.Proposal
-	}
-	if n.led.next() != top.Round {
-		s.stat("shadow_round_moved", 1)
-		return // the round was committed in the same reaction: crash state is legitimately obsolete
-	}
-	for _, v := range sent {
-		if v.R.Round != top.Round || v.R.Period != top.Period || v.R.Step != top.Step {
-			continue
-		}
-		k := fmt.Sprintf("%x|%d|%d|%d", v.R.Sender[:6], v.R.Round, v.R.Period, v.R.Step)
-		if pv, ok := reattested[k]; !ok || pv != v.R.Proposal {
-			s.violate("C02", "sent-before-persisted", "", fmt.Sprintf("n%d released vote %x r%d p%d s%d %s, but the crash DB image at that instant does not restore to a state containing it (restored node re-attests %v)",
-				n.id, v.R.Sender[:4], v.R.Round, v.R.Period, v.R.Step, v.R.Proposal.Short(), reattested))
-			return
+			s.stat("shadow_reattest_same", 1)
 		}
 	}
 	s.stat("shadow_reattest_ok", 1)
+}
+
+// ---------------------------------------------------------------------------------------------
+// C02 "persisted before sent", decided exactly.
+//
+// The crash DB keeps only the LAST persisted state (one row, replaced on every persist), and persists
+// of one node are legitimately pipelined and not ordered by step (a cert attest made on entering a round
+// can precede the soft attest of the same period). So the final image of a reaction does not tell
+// whether a particular attestation had been made durable before its votes left. The harness therefore
+// adds, inside the crash DB file itself, an append-only table fed by a trigger on the service's own
+// insert (same transaction: durable exactly when the persist is). At the network seam, in the emitting
+// goroutine, it samples how many states have been persisted so far. A vote of an own key at step >= soft
+// may leave only if one of the states persisted up to that instant - in this or an earlier incarnation;
+// the table travels with every crash image - holds the pending attest action for exactly this
+// (round, period, step, value).
+// ---------------------------------------------------------------------------------------------
+
+type attKey struct {
+	r, p, s uint64
+	dig     crypto.Digest
+}
+
+type persistRow struct {
+	id      int64
+	attests []attKey
+}
+
+func installHist(acc db.Accessor) error {
+	return acc.Atomic(func(ctx context.Context, tx *sql.Tx) error {
+		for _, q := range []string{
+			"create table if not exists Service (data blob)",
+			"create table if not exists hist (id integer primary key autoincrement, data blob)",
+			"create trigger if not exists hist_ins after insert on Service begin insert into hist(data) values (new.data); end",
+		} {
+			if _, err := tx.Exec(q); err != nil {
+				return err
+			}
+		}
+		return nil
+	})
+}
+
+// histSeq: how many states were ever persisted to this crash DB (monotone; survives row deletion).
+func histSeq(acc db.Accessor) int64 {
+	var n int64
+	err := acc.Atomic(func(ctx context.Context, tx *sql.Tx) error {
+		return tx.QueryRow("select coalesce(max(seq),0) from sqlite_sequence where name='hist'").Scan(&n)
+	})
+	if err != nil {
+		return -2
+	}
+	return n
+}
+
+func decodeAttests(raw []byte) ([]attKey, error) {
+	var ds struct {
+		_struct     struct{} `codec:","`
+		Router      []byte
+		Player      []byte
+		Clock       []byte
+		ActionTypes []uint8  `codec:"ActionTypes"`
+		Actions     [][]byte `codec:"Actions"`
+	}
+	if err := protocol.DecodeReflect(raw, &ds); err != nil {
+		return nil, err
+	}
+	num := func(m map[string]interface{}, k string) uint64 {
+		switch x := m[k].(type) {
+		case uint64:
+			return x
+		case int64:
+			return uint64(x)
+		}
+		return 0
+	}
+	var out []attKey
+	for _, ab := range ds.Actions {
+		var am map[string]interface{}
+		if err := protocol.DecodeReflect(ab, &am); err != nil {
+			continue // not a struct-shaped action
+		}
+		// the pending pseudonode action that (re)creates votes carries Round, Period, Step, Proposal
+		pm, hasProp := am["Proposal"]
+		if _, hasStep := am["Step"]; !hasStep || !hasProp {
+			continue
+		}
+		st := num(am, "Step")
+		if st < stepSoft {
+			continue
+		}
+		k := attKey{r: num(am, "Round"), p: num(am, "Period"), s: st}
+		var dv interface{}
+		switch m := pm.(type) {
+		case map[string]interface{}:
+			dv = m["dig"]
+		case map[interface{}]interface{}:
+			dv = m["dig"]
+		case nil:
+		default:
+			return nil, fmt.Errorf("persisted attest action: proposal of unexpected type %T", pm)
+		}
+		switch d := dv.(type) {
+		case []byte:
+			copy(k.dig[:], d)
+		case nil:
+		default:
+			return nil, fmt.Errorf("persisted attest action: digest of unexpected type %T", d)
+		}
+		out = append(out, k)
+	}
+	return out, nil
+}
+
+// drainHist moves newly persisted states from the node's crash DB into the harness's memory.
+func (s *Sim) drainHist(n *Node) error {
+	acc := db.Accessor{}
+	tmp := true
+	if in := n.cur; in != nil && in.histOK && !in.stopped {
+		acc, tmp = in.hist, false
+	} else {
+		var err error
+		if acc, err = db.MakeAccessor(n.dbPath, false, false); err != nil {
+			return err
+		}
+		defer acc.Close()
+	}
+	type rawRow struct {
+		id   int64
+		data []byte
+	}
+	var rows []rawRow
+	err := acc.Atomic(func(ctx context.Context, tx *sql.Tx) error {
+		rows = rows[:0]
+		rs, err := tx.Query("select id, data from hist where id > ? order by id", n.histSeen)
+		if err != nil {
+			return err
+		}
+		defer rs.Close()
+		for rs.Next() {
+			var r rawRow
+			if err := rs.Scan(&r.id, &r.data); err != nil {
+				return err
+			}
+			rows = append(rows, r)
+		}
+		if err := rs.Err(); err != nil {
+			return err
+		}
+		if !tmp && n.alive {
+			// keep the file small: it is copied for every crash image and shadow
+			_, err = tx.Exec("delete from hist where id <= ?", n.histSeen)
+		}
+		return err
+	})
+	if err != nil {
+		return err
+	}
+	for _, r := range rows {
+		at, err := decodeAttests(r.data)
+		if err != nil {
+			return err
+		}
+		n.persisted = append(n.persisted, persistRow{id: r.id, attests: at})
+		n.histSeen = r.id
+		s.stat("persist_rows", 1)
+	}
+	return nil
+}
+
+func (s *Sim) persistCheck(n *Node, sent []UVote, seqs []int64) {
+	if n.adv {
+		return
+	}
+	if err := s.drainHist(n); err != nil {
+		s.harness = "drainHist: " + err.Error()
+		return
+	}
+	for i, v := range sent {
+		h := seqs[i]
+		if h == -1 {
+			continue
+		}
+		if h < 0 {
+			s.harness = "could not read the crash DB's persist count at the emission seam"
+			return
+		}
+		want := attKey{r: uint64(v.R.Round), p: v.R.Period, s: v.R.Step, dig: v.R.Proposal.BlockDigest}
+		found, later := false, false
+		for _, row := range n.persisted {
+			for _, a := range row.attests {
+				if a == want {
+					if row.id <= h {
+						found = true
+					} else {
+						later = true
+					}
+				}
+			}
+		}
+		s.stat("persist_checked_votes", 1)
+		if !found {
+			what := "no state persisted by then holds that attestation"
+			if later {
+				what = "the state holding that attestation was persisted only afterwards"
+			}
+			s.violate("C02", "sent-before-persisted", "", fmt.Sprintf("n%d let vote %x r%d p%d s%d %s leave when %d states had been persisted to its crash DB; %s",
+				n.id, v.R.Sender[:4], v.R.Round, v.R.Period, v.R.Step, v.R.Proposal.Short(), h, what))
+			return
+		}
+	}
 }
 
 func (s *Sim) rememberVote(v UVote) {
